@@ -855,7 +855,7 @@ class Gen:
         if k == "case":
             subj = self.prim(self.pick(["int", "str", "any"]), 1)
             ty = self.static_type(subj)
-            nw = self.i(1, 3)
+            nw = self.i(0, 3)  # 0: a case tag with no when (only an else, or nothing at all)
             whens = []
             for _ in range(nw):
                 vals = [self.prim(ty if ty in ("int", "str") else "scalar", 0) for _ in range(self.i(1, 3))]
